@@ -7,7 +7,6 @@ import (
 	"fmt"
 	"log/slog"
 	"net/netip"
-	"sync"
 	"sync/atomic"
 	"time"
 
@@ -31,7 +30,7 @@ const (
 type connectionManager struct {
 	// relayUsed holds which relay localIndexs are in use
 	relayUsed     map[uint32]struct{}
-	relayUsedLock *sync.RWMutex
+	relayUsedLock *verifRWMutex
 
 	hostMap      *HostMap
 	trafficTimer *LockingTimerWheel[uint32]
@@ -53,7 +52,7 @@ func newConnectionManagerFromConfig(l *slog.Logger, c *config.C, hm *HostMap, p 
 		l:             l,
 		punchy:        p,
 		relayUsed:     make(map[uint32]struct{}),
-		relayUsedLock: &sync.RWMutex{},
+		relayUsedLock: &verifRWMutex{},
 	}
 
 	cm.reload(c, true)
